@@ -358,7 +358,11 @@ func (d *Ledger) gas() uint64 {
 }
 
 func (d *Ledger) call(fn, caller, rcpt string, args ...[]byte) *world.Call {
-	return &world.Call{Fn: fn, Caller: d.W.Addr(caller), Rcpt: d.W.Addr(rcpt), Args: args, Gas: d.gas(), Value: big.NewInt(0)}
+	c := &world.Call{Fn: fn, Caller: d.W.Addr(caller), Rcpt: d.W.Addr(rcpt), Args: args, Gas: d.gas(), Value: big.NewInt(0)}
+	if caller != "esdtsc" && d.R.Intn(25) == 0 {
+		c.RAE = true // every call flag combination: a flagged return-after-error on an ordinary call
+	}
+	return c
 }
 
 // ---- observation helpers (the driver looks at the real state only to choose interesting inputs)
@@ -415,7 +419,11 @@ func (d *Ledger) q(v *big.Int) int64 {
 }
 
 func (d *Ledger) anyAcct() string {
-	if d.chance(30) {
+	pct := 30
+	if d.Profile == "gas" || d.Profile == "payable" {
+		pct = 45
+	}
+	if d.chance(pct) {
 		return d.pick(d.SCs)
 	}
 	return d.pick(d.Users)
@@ -475,7 +483,11 @@ func (d *Ledger) someAmount(have int64) int64 {
 
 func (d *Ledger) callTail(to string) [][]byte {
 	// optional attached call
-	if !d.chance(25) {
+	pct := 25
+	if d.Profile == "gas" || d.Profile == "payable" {
+		pct = 45
+	}
+	if !d.chance(pct) {
 		return nil
 	}
 	t := [][]byte{[]byte("fn" + fmt.Sprint(d.R.Intn(3)))}
@@ -723,7 +735,7 @@ func (d *Ledger) actMulti() {
 		if len(mine) > 0 && !d.chance(12) {
 			h := mine[d.R.Intn(len(mine))]
 			tok, nonce := h.tok, h.nonce
-			if d.chance(6) {
+			if d.chance(14) {
 				tok, nonce = d.aliasSplit(tok, nonce)
 			}
 			args = append(args, tok, nb(nonce), d.amt(d.someAmount(d.q(h.val))))
@@ -980,13 +992,14 @@ func (d *Ledger) actHandover() {
 func (d *Ledger) actKV() {
 	a := d.anyAcct()
 	keys := [][]byte{[]byte("k1"), []byte("key2"), []byte("ELROND"), []byte("ELRONDesdtF1"), []byte("ELRON"), []byte("elrondx"), []byte("ELRONDroleesdtN"), []byte("ELRONDnonceN"), {}, []byte("EL"), []byte("ELROND!")}
-	vals := [][]byte{[]byte("v"), {}, []byte("value-2"), bytes.Repeat([]byte("z"), 40)}
+	forged, _ := (&esdt.ESDigitalToken{Value: new(big.Int).Mul(big.NewInt(1000), d.Scale)}).Marshal()
+	vals := [][]byte{[]byte("v"), {}, []byte("value-2"), bytes.Repeat([]byte("z"), 40), forged}
 	n := 1 + d.R.Intn(3)
 	var args [][]byte
 	for i := 0; i < n; i++ {
 		k := keys[d.R.Intn(2)]
-		if d.chance(25) {
-			k = keys[d.R.Intn(len(keys))]
+		if d.chance(25) || (i > 0 && d.chance(30)) {
+			k = keys[d.R.Intn(len(keys))] // protected keys also in the later pairs
 		}
 		args = append(args, k, vals[d.R.Intn(len(vals))])
 	}
@@ -1207,7 +1220,7 @@ func DefaultWeights(profile string) map[string]int {
 	case "meta":
 		w["create"], w["nft"], w["multi"], w["nftrole"], w["deliver"] = 10, 22, 18, 14, 22
 	case "gas":
-		w["sched"], w["kv"], w["create"], w["nftrole"], w["nft"], w["multi"], w["acct"] = 6, 10, 12, 14, 14, 14, 8
+		w["sched"], w["kv"], w["create"], w["nftrole"], w["nft"], w["multi"], w["acct"], w["transfer"] = 6, 10, 12, 12, 18, 20, 8, 16
 	case "payable":
 		w["oracle"], w["transfer"], w["nft"], w["multi"], w["deliver"] = 8, 18, 18, 18, 22
 	}
